@@ -69,7 +69,7 @@ theorem frame_core {A B : Image} {st : Stats} {lnM bbnM : Array UInt8} (hd : wfD
   obtain ⟨hsl1, _, hlnfl3, _⟩ := claimFreeList_spec P.m.lnBump "ln" P.lnFl _ _ P.hlnC (by simp)
   obtain ⟨hsb1, _, hbbnfl3, hbbnch⟩ := claimFreeList_spec P.m.bbnBump "bbn" P.bbnFl _ _ P.hbbnC (by simp)
   obtain ⟨hsb2, hbble, _, hbrch⟩ := claimAll_spec P.m.bbnBump 1 _ (by decide) _ _ _ P.hbrC hsb1
-  obtain ⟨hsl2, hlnle, hwalkF⟩ := leafWalk_spec A.ln P.m.lnBump _ _ _ _ _ _ _ P.hwalk hsl1
+  obtain ⟨hsl2, hlnle, _, hwalkF⟩ := leafWalk_spec A.ln P.m.lnBump _ _ _ _ _ _ _ P.hwalk hsl1
   -- free lists
   have hlnFlB : freeListAll B.ln P.m.lnBump P.m.lnBump P.m.lnFreelistPn = .ok P.lnFl := by
     apply freeListAll_frame A.ln B.ln _ _ _ _ P.hlnFl
